@@ -14,6 +14,7 @@ Stages (see DESIGN.md 4/C19, SPINE.md):
       (vi) print -> parse round trip on generated expressions and on every expression of the example files.
 """
 import contextlib
+import copy
 import glob
 import io
 import json
@@ -902,7 +903,9 @@ def replay_examples(ctx, I, files=None, only=None, budget_s=None, deadline=None,
             with quiet():
                 file = cs.CompFile(book, name)
                 for item in content:
-                    file.add_item(cs.parse_item(file, item))
+                    # compstate.parse_rule deletes the 'loc' key from the dictionary it is given: parse a copy, or a
+                    # second pass over the same loaded JSON applies located rules at the top level
+                    file.add_item(cs.parse_item(file, copy.deepcopy(item)))
         except Exception as ex:  # noqa
             bump("file-load-error:" + type(ex).__name__)
             ctx.log("examples: cannot load %s: %r" % (name, ex))
@@ -2221,6 +2224,402 @@ def linearity_stream(ctx, I, n):
 
 
 # =====================================================================================================
+# streams: Substitution / IntegrationByParts / DefiniteIntegralIdentity against substM / partsM / ftcM
+# (structural comparison up to the implementation's own normalize, then re-judged by value before reporting)
+# =====================================================================================================
+def model_vs_impl(ctx, I, stream, what, real, model_line, judge, conds, norm=None):
+    """real: Expr returned by the rule; model_line: the driver's answer.  Counts how they agree; only a difference of
+    VALUE is reported (ctx.broken)."""
+    E = I.expr
+    rsx = to_sexp(E, real)
+    if rsx is not None and canon(rsx) == model_line:
+        ctx.count("%s:identical" % stream)
+        return
+    try:
+        m = from_sexp(E, sexp.loads(model_line))
+    except Exception:  # noqa
+        ctx.count("%s:model-output-unreadable" % stream)
+        return
+    if norm is not None:
+        try:
+            with quiet():
+                if same_expr(E, norm(real), norm(m)):
+                    ctx.count("%s:same-normal-form" % stream)
+                    return
+        except Exception:  # noqa
+            pass
+    ctx.coverage["disagreements_checked"] += 1
+    try:
+        verdict, detail = judge.judge(real, m, conds, {}, {}, set(), set())
+    except Exception:  # noqa
+        verdict, detail = "skip", None
+    ctx.count("%s:structure-differs:%s" % (stream, verdict.split(":")[0]))
+    if verdict == "bad":
+        ctx.broken("correspondence:c19:" + stream, "%s: impl=%s model=%s (values differ: %s)" % (what, real, model_line[:300], detail))
+
+
+def norm_pieces(I, conds):
+    """Normalise the bodies and bounds of integrals / evaluations without evaluating them (the rules normalise piecewise)."""
+    E = I.expr
+    C = I.conditions.Conditions(conds)
+    N = I.poly.normalize
+
+    def rec(e):
+        if e.ty == E.INTEGRAL:
+            return E.Integral(e.var, N(e.lower, C), N(e.upper, C), N(e.body, C))
+        if e.ty == E.EVAL_AT:
+            return E.EvalAt(e.var, N(e.lower, C), N(e.upper, C), N(e.body, C))
+        if e.ty == E.OP:
+            return E.Op(e.op, *[rec(a) for a in e.args])
+        return N(e, C)
+    return rec
+
+
+def rule_models_stream(ctx, I, n):
+    E, R = I.expr, I.rules
+    P = I.parser.parse_expr
+    rng = ctx.rng("rule-models")
+    judge = StepJudge(I, rng, nsamples=2, budget_s=4.0)
+    with quiet():
+        conds = [P("a > 0"), P("b > 0")]
+    hctx = I.context.Context()
+    for c in conds:
+        hctx.add_condition(c)
+    bctx = I.context.Context()
+    try:
+        with quiet():
+            bctx.load_book("base")
+    except Exception:  # noqa
+        pass
+    norm = norm_pieces(I, conds)
+    jobs = []        # (kind, what, real, driver line)
+    for k in range(n):
+        kind = rng.choice(["subst", "subst", "parts", "parts", "ftc"])
+        lo, hi, c, _q = gen_bounds(I, rng)
+        try:
+            with quiet():
+                if kind == "subst":
+                    g = P(rng.choice(["x ^ 2", "2 * x + 1", "exp(x)", "log(x)", "sin(x)", "sqrt(x)", "x ^ 2 + 1", "a * x", "x + a", "1 / x", "x ^ 3",
+                                      "cos(x)", "-x", "1 - x", "exp(-x)"]))
+                    f = P(rng.choice(["u", "u ^ 2", "exp(u)", "1 / (u + 1)", "sqrt(u + 1)", "sin(u)", "log(u + 2)", "u * exp(u)", "1 / (u ^ 2 + 1)",
+                                      "a * u", "cos(u) ^ 2"]))
+                    dg = R.deriv("x", g, hctx)
+                    before = E.Integral("x", lo, hi, f.subst("u", g) * dg)
+                    rule = R.Substitution("u", g)
+                    # record what the rule's `normalize(body / deriv(g))` returns
+                    rec = []
+                    orig = R.normalize
+
+                    def spy(e_, conds_=None, _orig=orig, _rec=rec):
+                        r_ = _orig(e_, conds_)
+                        _rec.append((e_, r_))
+                        return r_
+                    R.normalize = spy
+                    try:
+                        st, real = apply_rule(I, rule, P(str(before)), hctx)
+                    finally:
+                        R.normalize = orig
+                    ctx.count("rule-models:subst:" + ("applied" if st == "ok" else st.split(":")[0]))
+                    if st != "ok":
+                        continue
+                    body0 = P(str(before)).body
+                    qs = [r_ for (e_, r_) in rec if e_.ty == E.OP and e_.op == "/" and len(e_.args) == 2 and same_expr(E, e_.args[0], body0)]
+                    if not qs:
+                        ctx.count("rule-models:subst:quotient-not-observed")
+                        continue
+                    q = qs[0]
+                    # the rule swaps the bounds when it finds the new lower one numerically above the new upper one
+                    try:
+                        ga = two_prec(E, g.subst("x", lo), {"a": 1.3, "b": 0.7}, limit_s=2)
+                        gb = two_prec(E, g.subst("x", hi), {"a": 1.3, "b": 0.7}, limit_s=2)
+                        swap = bool(ga > gb) and not (g.get_vars() - {"x"})
+                    except Unrel:
+                        swap = False
+                    sq, sg, sb = to_sexp(E, q), to_sexp(E, g), to_sexp(E, P(str(before)))
+                    if sq is None or sg is None or sb is None:
+                        continue
+                    jobs.append(("subst", "substitute u for %s on %s" % (g, before), real, sexp.dumps(["subst", "u", sg, sq, swap, sb]), before))
+                elif kind == "parts":
+                    u = P(rng.choice(["x", "log(x)", "x ^ 2", "exp(x)", "sin(x)", "atan(x)", "x + a", "log(x) ^ 2", "cos(a * x)", "sqrt(x)"]))
+                    v = P(rng.choice(["x", "x ^ 2 / 2", "exp(x)", "-cos(x)", "sin(x)", "x ^ 3 / 3", "log(x)", "exp(a * x) / a", "x ^ (a + 1) / (a + 1)"]))
+                    dv = R.deriv("x", v, hctx)
+                    before = E.Integral("x", lo, hi, I.poly.normalize(u * dv, hctx.get_conds()))
+                    rule = R.IntegrationByParts(u, v)
+                    st, real = apply_rule(I, rule, P(str(before)), hctx)
+                    ctx.count("rule-models:parts:" + ("applied" if st == "ok" else st.split(":")[0]))
+                    if st != "ok":
+                        continue
+                    su, sv, sb = to_sexp(E, u), to_sexp(E, v), to_sexp(E, P(str(before)))
+                    if su is None or sv is None or sb is None:
+                        continue
+                    jobs.append(("parts", "parts u=%s v=%s on %s" % (u, v, before), real, sexp.dumps(["parts", su, sv, sb]), before))
+                    # the acceptance test stands for  body = u * dv : check that numerically where it accepted
+                    try:
+                        verdict, detail = judge.judge(before.body, E.Op("*", u, I.parser.parse_expr(str(dv))), conds, {}, {}, set(), set())
+                    except Exception:  # noqa
+                        verdict, detail = "skip", None
+                    ctx.count("rule-models:parts:accept-" + verdict.split(":")[0])
+                    if verdict == "bad":
+                        ctx.violation("parts-accept:%s:%s:%s" % (before, u, v), "IntegrationByParts(%s, %s) accepted the integrand %s, which is not u * dv: %s" % (
+                            u, v, before.body, detail), {"kind": "rule", "rule": "parts", "before": str(before), "params": rule.export()})
+                else:
+                    body = P(rng.choice(["x ^ 2", "x ^ 3", "sin(x)", "cos(x)", "exp(x)", "1 / x", "1 / (x ^ 2 + 1)", "x", "sqrt(x)", "1 / sqrt(x)",
+                                         "sec(x) ^ 2", "exp(a * x)", "sin(a * x)", "cos(a * x)", "x ^ a", "1 / (x + a)", "log(x)", "x ^ (1/3)"]))
+                    before = E.Integral("x", lo, hi, body)
+                    rule = R.DefiniteIntegralIdentity()
+                    bh = I.context.Context(bctx)
+                    for c_ in conds:
+                        bh.add_condition(c_)
+                    st, real = apply_rule(I, rule, P(str(before)), bh)
+                    if st != "ok" or real.ty != E.EVAL_AT:
+                        ctx.count("rule-models:ftc:" + ("no-table-entry" if st == "ok" else st.split(":")[0]))
+                        continue
+                    ctx.count("rule-models:ftc:applied")
+                    sF, sb = to_sexp(E, real.body), to_sexp(E, P(str(before)))
+                    if sF is None or sb is None:
+                        continue
+                    jobs.append(("ftc", "table antiderivative %s for %s" % (real.body, before), real, sexp.dumps(["ftc", sF, sb]), before))
+                    ftc_hypothesis(ctx, I, "x", real.body, body, (lo, hi), conds, rng, "generated")
+        except Timeout:
+            raise
+        except Exception as ex:  # noqa
+            ctx.count("rule-models:%s:setup-%s" % (kind, type(ex).__name__))
+            continue
+    out = ctx.lean_driver(EXE, [j[3] for j in jobs]) if jobs else []
+    if out is None:
+        ctx.broken("correspondence:c19:driver", "model driver unavailable")
+        return
+    for (kind, what, real, line, before), ans in zip(jobs, out):
+        ctx.case(("rule-model", kind, what), nontrivial=True)
+        if kind == "subst" and same_expr(E, from_sexp(E, sexp.loads(ans)), before):
+            ctx.count("rule-models:subst:branch-not-modelled")       # the rule went on to solve g = u for x
+            continue
+        model_vs_impl(ctx, I, "rule-models:" + kind, what, real, ans, judge, conds, norm)
+
+
+def ftc_hypothesis(ctx, I, x, F, f, bounds, conds, rng, where):
+    """`deriv_eq` of FtcOK on the real table: the derivative of the antiderivative the table gave is the integrand
+    (normal forms first, then values at points of the interval)."""
+    E = I.expr
+    hctx = I.context.Context()
+    for c in conds:
+        hctx.add_condition(c)
+    st, dF = run_deriv_impl(I, F, x, raw=False)
+    if st != "ok":
+        ctx.count("ftc-hypothesis:deriv-" + st.split(":")[0])
+        return
+    C = I.conditions.Conditions(conds)
+    s1, n1 = impl_normalize(I, dF, C)
+    s2, n2 = impl_normalize(I, f, C)
+    if s1 == "ok" and s2 == "ok" and same_expr(E, n1, n2):
+        ctx.count("ftc-hypothesis:same-normal-form")
+        return
+    names = (dF.get_vars() | f.get_vars()) - {x}
+    good = 0
+    for _ in range(8):
+        env = sample_env(E, rng, names, conds, set())
+        if env is None:
+            break
+        if bounds is not None:
+            try:
+                lo = float(two_prec(E, bounds[0], env, limit_s=2))
+                hi = float(two_prec(E, bounds[1], env, limit_s=2))
+            except Unrel:
+                continue
+            env[x] = lo + (hi - lo) * rng.uniform(0.05, 0.95)
+        else:
+            env[x] = round(rng.uniform(0.2, 1.5), 3)
+        try:
+            a = two_prec(E, dF, env, limit_s=3)
+            b = two_prec(E, f, env, limit_s=3)
+        except Unrel:
+            continue
+        good += 1
+        if not close(a, b):
+            ctx.violation("ftc-table:%s" % F, "the table antiderivative %s of %s does not have the integrand as derivative (%s): %s vs %s at %s" % (
+                F, f, where, a, b, env), {"kind": "ftc", "F": ser_expr(E, F), "f": ser_expr(E, f), "conds": [str(c) for c in conds]})
+            return
+        if good >= 3:
+            break
+    ctx.count("ftc-hypothesis:" + ("same-values" if good else "undecided"))
+
+
+def ftc_table_check(ctx, I):
+    """Every indefinite-integral identity of the base book: D F = f."""
+    E = I.expr
+    rng = ctx.rng("ftc-table")
+    bctx = I.context.Context()
+    try:
+        with quiet():
+            bctx.load_book("base")
+            idents = bctx.get_indefinite_integrals()
+    except Exception as ex:  # noqa
+        ctx.count("ftc-table:load-" + type(ex).__name__)
+        return
+
+    def unsym(e):
+        """pattern symbols -> variables of the same name"""
+        if e.ty == E.SYMBOL:
+            return E.Var(e.name)
+        if e.ty == E.OP:
+            return E.Op(e.op, *[unsym(a) for a in e.args])
+        if e.ty == E.FUN:
+            return E.Fun(e.func_name, *[unsym(a) for a in e.args])
+        if e.ty == E.INDEFINITEINTEGRAL:
+            return E.IndefiniteIntegral(e.var, unsym(e.body), e.skolem_args)
+        return e
+    for ident in idents:
+        try:
+            lhs, rhs = unsym(ident.lhs), unsym(ident.rhs)
+            if not (rhs.ty == E.OP and rhs.op == "+" and rhs.args[1].ty == E.SKOLEMFUNC):
+                continue
+            conds = [unsym(c) for c in (ident.conds.data if ident.conds is not None else [])]
+            ctx.case(("ftc-table", str(lhs)), nontrivial=True)
+            ctx.count("ftc-table:entries")
+            ftc_hypothesis(ctx, I, lhs.var, rhs.args[0], lhs.body, None, conds, rng, "base book")
+        except Exception as ex:  # noqa
+            ctx.count("ftc-table:skip-" + type(ex).__name__)
+
+
+# =====================================================================================================
+# stream: Interval.sqrt / exp / log / contained_in / intersection against the model
+# =====================================================================================================
+def sbound_value(x):
+    import math
+    if x in ("-oo", "oo"):
+        return float("-inf") if x == "-oo" else float("inf")
+    if x[0] == "app":
+        q = Fraction(int(x[2]), int(x[3]))
+        return {"sqrt": math.sqrt, "exp": math.exp, "log": math.log}[x[1]](q)
+    return float(Fraction(int(x[0]), int(x[1])))
+
+
+def endpoint_float(I, e):
+    """Value of a constant endpoint expression (expr.eval_expr does not know log)."""
+    E = I.expr
+    if e == E.POS_INF:
+        return float("inf")
+    if e == E.NEG_INF:
+        return float("-inf")
+    ne = NumEval(MP_HI, E)
+    return float(ne.real(ne.ev(e, {})))
+
+
+def interval_fun_stream(ctx, I, n):
+    import math
+    E = I.expr
+    rng = ctx.rng("interval-fun")
+    cases = [("isqrt", (Fraction(-1), Fraction(4), True, False), None), ("isqrt", (Fraction(0), Fraction(2), True, True), None),
+             ("ilog", (Fraction(0), Fraction(2), True, False), None), ("iexp", ("-oo", Fraction(1), True, False), None),
+             ("icontained", (Fraction(0), Fraction(1), False, False), (Fraction(0), Fraction(1), True, False)),
+             ("icontained", ("-oo", Fraction(1), False, False), ("-oo", Fraction(1), True, False)),
+             ("iinter", (Fraction(0), Fraction(3), False, False), (Fraction(1), "oo", True, True))]
+    for _ in range(n):
+        op = rng.choice(["isqrt", "iexp", "ilog", "icontained", "icontained", "iinter", "iinter"])
+        a = gen_ival(rng)
+        if op == "isqrt" and (a[1] == "-oo" or (a[1] != "oo" and a[1] < 0)):
+            continue
+        if op == "ilog" and (a[1] == "-oo" or (a[1] != "oo" and a[1] <= 0)):
+            continue
+        b = gen_ival(rng) if op in ("icontained", "iinter") else None
+        if b is not None and rng.random() < 0.3:
+            b = (a[0], a[1], rng.random() < 0.5, rng.random() < 0.5)       # equal endpoints, flags differ
+        cases.append((op, a, b))
+    interval_fun_cases(ctx, I, cases, rng)
+
+
+def interval_fun_cases(ctx, I, cases, rng):
+    import math
+    E = I.expr
+    lines = [sexp.dumps([op, s_ival(a)] + ([s_ival(b)] if b is not None else [])) for op, a, b in cases]
+    out = ctx.lean_driver(EXE, lines)
+    if out is None:
+        ctx.broken("correspondence:c19:driver", "model driver unavailable")
+        return
+    nd = 0
+    for (op, a, b), ans in zip(cases, out):
+        ctx.case(("ival-fun", op, a, b), nontrivial=True)
+        A = mk_interval(I, a)
+        try:
+            with quiet():
+                if op == "isqrt":
+                    r = A.sqrt()
+                elif op == "iexp":
+                    r = A.exp()
+                elif op == "ilog":
+                    r = A.log()
+                elif op == "icontained":
+                    r = A.contained_in(mk_interval(I, b))
+                else:
+                    r = A.intersection(mk_interval(I, b))
+        except Exception as ex:  # noqa
+            ctx.count("interval-fun:%s:raises" % op)
+            continue
+        ctx.count("interval-fun:%s:ok" % op)
+        m = sexp.loads(ans)
+        if op == "icontained":
+            # The theorem is  model True => inclusion; what must transfer to the code is  impl True => model True.
+            # The implementation may answer False where the exact model says True: it compares Fractions with
+            # floats shifted by its tolerance (e.g. [5/3,5).contained_in([5/3,5)) is False because
+            # Fraction(5,3) < float(5/3) - 1e-16 == float(5/3)); that is the safe direction and only counted.
+            agree = (m == "T") or not r
+            if m == "T" and not r:
+                ctx.count("interval-fun:icontained:impl-more-conservative")
+            impl_s = str(r)
+        elif op == "iinter":
+            impl_s = canon(s_ival(read_interval(I, r)))
+            agree = (ans == impl_s)
+        else:
+            # endpoints are unevaluated constants on both sides: compare their values and the flags
+            lo_i, hi_i = endpoint_float(I, r.start), endpoint_float(I, r.end)
+            lo_m, hi_m = sbound_value(m[0]), sbound_value(m[1])
+            same = lambda p, q: p == q or abs(p - q) <= 1e-12 * max(1.0, abs(p))      # noqa: E731
+            agree = same(lo_i, lo_m) and same(hi_i, hi_m) and (m[2] == "T") == bool(r.left_open) and (m[3] == "T") == bool(r.right_open)
+            impl_s = "%s" % r
+        if not agree:
+            nd += 1
+            ctx.coverage["disagreements_checked"] += 1
+            if nd <= 3:
+                ctx.broken("correspondence:c19:interval-fun", "%s %s %s impl=%s model=%s" % (op, show_ival(a), show_ival(b) if b else "", impl_s, ans))
+        # ---- property oracle on the implementation: sampled points
+        if op in ("isqrt", "iexp", "ilog"):
+            fn = {"isqrt": math.sqrt, "iexp": math.exp, "ilog": math.log}[op]
+            lo_i, hi_i = endpoint_float(I, r.start), endpoint_float(I, r.end)
+            for x in points_of(rng, a):
+                if (op == "isqrt" and x < 0) or (op == "ilog" and x <= 0):
+                    continue
+                try:
+                    y = fn(x)
+                except (OverflowError, ValueError):
+                    continue
+                tol = 1e-12 * max(1.0, abs(y))
+                exact_end = (op == "isqrt" and x == 0) or (op == "iexp" and x == 0) or (op == "ilog" and x == 1) or \
+                    (a[0] not in ("-oo", "oo") and x == a[0]) or (a[1] not in ("-oo", "oo") and x == a[1])
+                bad = y < lo_i - tol or y > hi_i + tol or \
+                    (exact_end and ((r.left_open and y == lo_i) or (r.right_open and y == hi_i)) and (
+                        (a[0] not in ("-oo", "oo") and x == a[0] and not a[2]) or (a[1] not in ("-oo", "oo") and x == a[1] and not a[3]) or
+                        (op == "isqrt" and x == 0)))
+                if bad:
+                    ctx.violation("interval:%s:%s" % (op, show_ival(a)), "interval %s of %s = %s does not contain %s(%s) = %s" % (op, show_ival(a), r, op[1:], x, y),
+                                  {"kind": "interval-fun", "op": op, "a": ser_ival(a)})
+                    break
+        elif op == "icontained" and r:
+            Bv = b
+            for x in points_of(rng, a):
+                if not in_ival(Bv, x):
+                    ctx.violation("interval:icontained:%s:%s" % (show_ival(a), show_ival(b)), "%s.contained_in(%s) is True but %s lies in the first only" % (
+                        show_ival(a), show_ival(b), x), {"kind": "interval-fun", "op": op, "a": ser_ival(a), "b": ser_ival(b)})
+                    break
+        elif op == "iinter":
+            ri = read_interval(I, r)
+            for x in points_of(rng, a) + points_of(rng, b):
+                if in_ival(ri, x) != (in_ival(a, x) and in_ival(b, x)):
+                    ctx.violation("interval:iinter:%s:%s" % (show_ival(a), show_ival(b)), "intersection of %s and %s = %s is wrong at %s" % (
+                        show_ival(a), show_ival(b), show_ival(ri), x), {"kind": "interval-fun", "op": op, "a": ser_ival(a), "b": ser_ival(b)})
+                    break
+
+
+# =====================================================================================================
 # stream: bounds of expressions under interval conditions (Conditions.get_bounds_for_expr)
 # =====================================================================================================
 def gen_bounded_expr(E, rng, depth):
@@ -2473,16 +2872,19 @@ def run(ctx):
         "flags, operations + - neg * inverse / ^n (n<=6), every result also judged on rational sample points (attained endpoints, interior, "
         "near zero) in exact arithmetic; bounds: get_bounds_for_expr on + - * / ^n sqrt exp log sin cos expressions under interval "
         "conditions. normalize: corpus (incl. evaluations at singular end points) + random expressions, with/without x>0,y>0. "
-        "linearity: Linearity / SplitRegion on corpus + generated definite integrals against linearityM / splitM. rules: generated "
+        "linearity: Linearity / SplitRegion on corpus + generated definite integrals against linearityM / splitM. rule-models: generated "
+        "Substitution / IntegrationByParts / DefiniteIntegralIdentity applications against substM / partsM / ftcM (normalize's result "
+        "recorded from the real run), every base-book antiderivative differentiated; interval-fun: sqrt/exp/log/contained_in/"
+        "intersection on random intervals against the model and on sampled points. rules: generated "
         "Linearity (integral, finite sum, antiderivative), SplitRegion, IntegrationByParts, Substitution, SubstitutionInverse, "
         "DerivIntExchange on integrands built from 24 atoms, rational bounds in [1/8, 9/4]. examples: recorded steps of the typed "
         "example files re-run through compstate and judged at >= 3 parameter points (interior / near the stated bounds / larger "
         "magnitude); thorough: all files; quick: the file group `seed mod 4` (a quarter of the steps) within a time cap -- see "
         "example_steps.coverage for what this run reached. distinct = by canonical input string.")
     use_module_findings(ctx)
-    proofs_ok = ctx.lean_props(["Holpy.C19.Props"], exes=[EXE])
+    proofs_ok = ctx.lean_props(["Holpy.C19.Props", "Holpy.C19.Props2"], exes=[EXE])
     if ctx.tier == "thorough" and proofs_ok:
-        ctx.lean_check_modules(["Holpy.C19.Props"])
+        ctx.lean_check_modules(["Holpy.C19.Props", "Holpy.C19.Props2"])
     ctx.coverage["trusted_base"] += [
         "Mathlib v4.33 analysis modules imported by the proof files (SpecialFunctions.*Deriv, Pow.Deriv, Sqrt, IntervalIntegral)",
         "correspondence harness harness/props/c19.py: generators, s-expression writer, replacement of rules.normalize by the identity "
@@ -2516,6 +2918,9 @@ def run(ctx):
     normalize_stream(ctx, I, ctx.scale(500, 8000))
     ctx.log("normalize stream done")
     linearity_stream(ctx, I, ctx.scale(300, 4000))
+    rule_models_stream(ctx, I, ctx.scale(60, 900))
+    ftc_table_check(ctx, I)
+    interval_fun_stream(ctx, I, ctx.scale(1500, 30000))
     rules_stream(ctx, I, ctx.scale(80, 900))
     ctx.log("generated rule applications done")
     files = typed_example_files(ctx.repo)
@@ -2596,6 +3001,20 @@ def replay_one(ctx, I, rp):
             before = P(rp["before"])
             rule = mk_rule(I, dict(rp["params"]))
         rule_case(ctx, I, rp["rule"], before, rule, rng)
+    elif k == "no-crash":
+        # a rule may decline (AssertionError) or succeed, but must not die of a TypeError/AttributeError/...
+        with quiet():
+            before = P(rp["before"])
+            rule = mk_rule(I, dict(rp["params"]))
+        st, _r = apply_rule(I, rule, before)
+        ctx.count("corpus:no-crash:" + st.split(":")[0])
+        if st.startswith("raises:"):
+            ctx.violation(rp["key"], "%s on %s dies with %s instead of declining" % (rule, rp["before"], st[7:]),
+                          {"kind": "no-crash", "key": rp["key"], "before": rp["before"], "params": rp["params"]})
+    elif k == "interval-fun":
+        interval_fun_cases(ctx, I, [(rp["op"], deser_ival(rp["a"]), deser_ival(rp["b"]) if rp.get("b") else None)], rng)
+    elif k == "ftc":
+        ftc_hypothesis(ctx, I, "x", deser_expr(E, rp["F"]), deser_expr(E, rp["f"]), None, [P(c) for c in rp.get("conds", [])], rng, "replay")
     elif k == "example-step":
         files = [f for f in typed_example_files(ctx.repo) if f[0] == rp["file"]]
         replay_examples(ctx, I, files, only=rp["key"], budget_s=30)
@@ -2621,31 +3040,37 @@ def replay(ctx, rp):
 
 
 MANIFEST = {
-    "text": "Lean theorems (Mathlib analysis) about an executable model of the calculator's logic cores: deriv_correct (every case of "
-            "rules.deriv on the closed-form fragment has the derivative as its value, under domain conditions); interval_encloses_add/"
-            "neg/sub/mul/inverse/div/pow (Interval + - unary - * inverse / and natural powers, with open/closed flags and infinite "
-            "endpoints); expr_parse_print_partial (token-level round trip of the printer's bracket rules through a model of the Lark "
-            "grammar; lexing of the printed string is checked per case at run time, not proved); linearity_value and split_value "
-            "(the expression linearityM / splitM returns - models of Linearity.eval on definite integrals and of SplitRegion.eval's "
-            "non-principal-value branch - has the value of the integral, under interval integrability of the parts). Every model "
-            "function (derivM, pp/ppT/lex/parse, Ival.*, linearityM, splitM) is compared with the real Python on generated inputs on "
-            "every run (deriv with normalize stubbed in the harness process; a purely structural difference is then re-judged on "
-            "normal forms and values). Everything else is judged only numerically (mpmath, two precisions; supporting evidence, not "
-            "proof): Simplify/normalize, Substitution and its inverse, IntegrationByParts, identities, limits, series, definitions, "
-            "equation rules, DerivIntExchange, the Leibniz integral case of deriv, and all of get_bounds_for_expr together with "
-            "Interval.sqrt/exp/log/sin/cos and powers with an interval or non-natural exponent. The numerical judgement uses >= 3 "
-            "admissible parameter points per step (interior, near the stated bounds, larger magnitude) on generated rule applications "
-            "and on the recorded steps of integral/examples: the thorough tier re-runs all ~1290 loadable recorded steps (time cap 15 "
-            "min), the quick tier one quarter of the files per run (the group seed mod 4, ~330 steps, 95 s cap; seeds 0-3 together "
-            "cover every file); about 15% of the steps cannot be evaluated reliably and are counted as skipped. A recorded step whose "
-            "rule starts raising (it re-runs on the unchanged tree: corpus/c19_replayable.json) is reported.",
+    "text": "Lean theorems (Mathlib analysis) about executable models of the calculator's logic cores, every model function compared "
+            "with the real Python on generated inputs on every run. PROVED: deriv_correct (every case of rules.deriv on the closed-form "
+            "fragment, under the domain predicate DiffOK); linearity_value (linearityM = Linearity.eval on definite integrals, under "
+            "interval integrability of the parts); split_value (splitM = SplitRegion.eval without principal value); "
+            "substitution_value (substM = Substitution.eval on a definite integral, branch where replacing g by u clears the old "
+            "variable; the rule's normalize(body / deriv g) result and its bound-swap decision are oracle arguments recorded from the "
+            "real run and the theorem holds for all of them; hypotheses SubstOK: u fresh, g differentiable with continuous non-vanishing "
+            "derivative on the interval, the recorded quotient has the value of body/g', new integrand continuous on the image - the "
+            "code checks none of these); parts_value (partsM = IntegrationByParts.eval after its acceptance test, which is replaced by "
+            "the fact it stands for, body = u * deriv v; u, v differentiable, derivatives integrable); ftc_value ([F]_a^b = INT_a^b f "
+            "when deriv F = f, the shape DefiniteIntegralIdentity produces from its table; the harness checks deriv F = f for every "
+            "indefinite-integral identity of the base book and every one it sees used); interval_encloses_add/neg/sub/mul/inverse/div/"
+            "pow/sqrt/exp/log, interval_contained_in_sound, interval_intersection_mem (Interval arithmetic with open/closed flags and "
+            "infinite endpoints; contained_in on exact endpoints); expr_parse_print_partial (token-level round trip of the printer's "
+            "bracket rules through a model of the Lark grammar; lexing of the printed string is checked per case at run time, not "
+            "proved). Structural differences between model and code are re-judged on normal forms and values before anything is "
+            "reported. NOT PROVED (numerical oracle only; mpmath at two precisions, >= 3 admissible parameter points per step: "
+            "interior, near the stated bounds, larger magnitude): normalize/Simplify/FullSimplify, Substitution's second branch "
+            "(solving g = u) and its computation of bounds by limits, SubstitutionInverse, identities, Equation, limits, series, "
+            "ElimInfInterval, definitions, equation rules, DerivIntExchange, the Leibniz integral case of deriv, get_bounds_for_expr, "
+            "Interval.sin/cos/from_condition and powers with an interval or non-natural exponent. Recorded steps of integral/examples: "
+            "thorough re-runs all loadable recorded steps (time cap 15 min), quick one quarter of the files per run (group seed mod 4, "
+            "95 s cap; seeds 0-3 together cover every file); about 15% of the steps cannot be evaluated reliably and are counted as "
+            "skipped. A recorded step whose rule starts raising (corpus/c19_replayable.json) is reported.",
     "note": "Trusted: Lean kernel + propext/Classical.choice/Quot.sound, Mathlib analysis library, the harness generators and the numerical "
-            "oracle (mpmath quadrature/differentiation/limits), Lark. UNPROVED (numerical oracle only): normalize and every rule other "
-            "than deriv/Linearity/SplitRegion; Conditions.get_bounds_for_expr and Interval.sqrt, exp, log, sin, cos, contained_in, "
-            "intersection, from_condition and ** with an interval / fractional / negative exponent (six of the ten repaired defects "
-            "were in normalize and in these interval parts); IntegrationByParts (parts_value is not proved); the principal-value "
-            "branch of SplitRegion; Linearity on indefinite integrals, limits and sums. deriv_correct excludes the Leibniz integral "
-            "case (compared structurally and numerically). normalize's idempotence does not hold on the pinned tree (known finding).",
+            "oracle (mpmath quadrature/differentiation/limits), Lark. The theorems about substM take normalize's output as given "
+            "(value hypothesis qval) - normalize itself is judged only numerically; SubstOK/PartsOK/FtcOK/LinOK spell out the analytic "
+            "hypotheses the code does not check (differentiability, continuity, non-vanishing derivative, integrability, freshness of "
+            "the new variable). deriv_correct excludes the Leibniz integral case. Conditions.get_bounds_for_expr as a whole, "
+            "Interval.sin/cos, from_condition and ** with interval / fractional / negative exponents are unproved (oracle only). "
+            "normalize's idempotence does not hold on the pinned tree (known finding).",
     "design_ref": "DESIGN.md 4/C19, 8.19",
 }
 FINDINGS = [
@@ -2670,6 +3095,9 @@ FINDINGS = [
      "what": "Interval.sqrt of an interval reaching below zero kept the open flag at 0: sqrt(x) for x in (-1,4] bounded by (0,2]"},
     {"status": "fixed", "key": "bounds:x ^ y | x >= 1/4, x <= 1/2, y >= 1, y <= 2", "commit": "0aa781a",
      "what": "Interval power with an interval exponent used [lo^elo, hi^ehi] also for bases below 1: [1/4,1/2]^[1,2] = [1/4,1/4]"},
+    {"status": "fixed", "key": "crash:norm.minus_normal_definite_integral", "commit": "fixes/C19-11.patch",
+     "what": "norm.minus_normal_definite_integral called to_poly without conds: Equation raised TypeError instead of declining "
+             "(e.g. rewriting (INT x:[0,1]. x^2) - (INT y:[0,1]. y) to INT x:[0,1]. (x - 1) * x)"},
     {"status": "known", "key": "normalize-idempotent:second-pass-changes-form-only",
      "what": "normalize is not idempotent: a second pass reorders factors, distributes a rational coefficient or simplifies constants "
              "further (e.g. (x - y) / 5 -> 1/5 * (x - y) -> 1/5 * x - 1/5 * y); the value is unchanged (checked on every instance)"},
